@@ -8,10 +8,12 @@ pub closed spec fn bv(b: Bytes) -> Seq<u8> { b._b@ }
 
 impl Bytes {
 //@ extract fn new from src/classic/clvm/__type_compatibility__.rs in impl Bytes
+//@ replace R33 @<for b in bytes {>@ => @<for b in verif_it: bytes invariant bvec@ == verif_it.history@.map_values(|x: &u8| *x) {>@
 //@ sig r
     ensures
         value is None ==> bv(r) == Seq::<u8>::empty(),
         value matches Some(BytesFromType::Raw(v)) ==> bv(r) == v@,
+        value matches Some(BytesFromType::String(s)) ==> bv(r) == string_bytes(s@),
     decreases (if value matches Some(BytesFromType::String(_)) { 1int } else { 0int })
 //@ end
 //@ extract fn length from src/classic/clvm/__type_compatibility__.rs in impl Bytes
